@@ -895,13 +895,16 @@ func chunkEnd(data []byte, first, n int) int {
 //@   modifies chanlog[*PacketData](), chanlog[struct{}](), chanlog[time.Time](), events("*")
 //@   acquires TimeoutManager.mu
 //@   requires g != nil && g.cfg != nil && tminv(g.timeoutManager) && g.cfg.maxChunkSize >= 0
+//@   at "if err := sendPacket(packet); err != nil {" assert @C14 packet != nil && within(packet.Payload, data) && len(packet.Payload) >= 1 &&
+//@          len(packet.Payload) <= maxChunk && offsetin(packet.Payload, data) + len(packet.Payload) == sentBytes && sentBytes <= len(data) && !packet.IsPing &&
+//@          packet.FinalChunk == (sentBytes == len(data))
 //@   loop 0 invariant sentBytes >= 0 && sentBytes <= len(data) && maxChunk == g.cfg.maxChunkSize && maxChunk > 0 && len(data) > 0
 //@   loop 0 invariant nsent[*PacketData]() >= old(nsent[*PacketData]()) && chunkEnd(data, old(nsent[*PacketData]()), nsent[*PacketData]()) == sentBytes
 //@   loop 0 invariant implies(nsent[*PacketData]() > old(nsent[*PacketData]()), isnil(timeout))
-//@   loop 0 invariant forall(old(nsent[*PacketData]()), nsent[*PacketData](), func(i int) bool { return chunkSent(g, i) })
-//@   loop 0 invariant forall(old(nsent[*PacketData]()), nsent[*PacketData](), func(i int) bool { return chunkSize(data, i, maxChunk) })
-//@   loop 0 invariant forall(old(nsent[*PacketData]()), nsent[*PacketData](), func(i int) bool { return chunkChain(data, old(nsent[*PacketData]()), i) })
-//@   loop 0 invariant forall(old(nsent[*PacketData]()), nsent[*PacketData](), func(i int) bool {
+//@   loop 0 invariant @C14 forall(old(nsent[*PacketData]()), nsent[*PacketData](), func(i int) bool { return chunkSent(g, i) })
+//@   loop 0 invariant @C14 forall(old(nsent[*PacketData]()), nsent[*PacketData](), func(i int) bool { return chunkSize(data, i, maxChunk) })
+//@   loop 0 invariant @C14 forall(old(nsent[*PacketData]()), nsent[*PacketData](), func(i int) bool { return chunkChain(data, old(nsent[*PacketData]()), i) })
+//@   loop 0 invariant @C14 forall(old(nsent[*PacketData]()), nsent[*PacketData](), func(i int) bool {
 //@          return sentval[*PacketData](i).FinalChunk == (i == nsent[*PacketData]()-1 && sentBytes == len(data)) })
 //@   ensures @C14,C01 implies(err == nil, nsent[*PacketData]() >= old(nsent[*PacketData]())+1 && sentval[*PacketData](nsent[*PacketData]()-1).FinalChunk &&
 //@           chunkEnd(data, old(nsent[*PacketData]()), nsent[*PacketData]()) == len(data))
